@@ -134,6 +134,14 @@ Theorem C10_string_concat_simplify_refuted :
 Proof. exact string_concat_simplify_refuted. Qed.
 Print Assumptions C10_string_concat_simplify_refuted.
 
+(* what a purity filter on $glue buys: with a glue that yields a value without events, independently of the
+   history (literal, variable), the rewrite is an equivalence for all operands $x, $y *)
+Theorem C10_string_concat_simplify_preserves_partial : forall en x y g,
+  env_ok en -> typeof (rw_lhs (rw_join_glue x y g)) = Some TString -> pure_total en g ->
+  preserves en (rw_join_glue x y g).
+Proof. exact string_concat_simplify_preserves_partial. Qed.
+Print Assumptions C10_string_concat_simplify_preserves_partial.
+
 Theorem C10_off_by1_suggestion_differs :
   exists en x, env_ok en /\ off_by1 (rw_lhs (rw_off_by1 x)) = true /\
     eval en (rw_lhs (rw_off_by1 x)) = Some (RPanic, []) /\ eval en (rw_rhs (rw_off_by1 x)) = Some (RVal (VInt 7), []).
